@@ -176,7 +176,7 @@ func TapOnSubscribe[T any](onSubscribe func()) func(Observable[T]) Observable[T]
 // to the provided observer.
 func TapOnSubscribeWithContext[T any](onSubscribe func(ctx context.Context)) func(Observable[T]) Observable[T] {
 	return func(source Observable[T]) Observable[T] {
-		return NewUnsafeObservableWithContext(func(subscriberCtx context.Context, destination Observer[T]) Teardown {
+		return NewObservableWithContext(func(subscriberCtx context.Context, destination Observer[T]) Teardown {
 			onSubscribe(subscriberCtx) // triggers before the source is subscribed
 			sub := source.SubscribeWithContext(subscriberCtx, destination)
 
@@ -201,7 +201,7 @@ func DoOnSubscribeWithContext[T any](onSubscribe func(ctx context.Context)) func
 // Play: https://go.dev/play/p/VEACE_KhdvU
 func TapOnFinalize[T any](onFinalize func()) func(Observable[T]) Observable[T] {
 	return func(source Observable[T]) Observable[T] {
-		return NewUnsafeObservableWithContext(func(subscriberCtx context.Context, destination Observer[T]) Teardown {
+		return NewObservableWithContext(func(subscriberCtx context.Context, destination Observer[T]) Teardown {
 			sub := source.SubscribeWithContext(subscriberCtx, destination)
 
 			return func() {
